@@ -931,7 +931,7 @@ func c01CloneKeepsRawDataNilness(c *Ctx) {
 					continue
 				}
 				for _, pr := range [][2]ssa.Value{{b.X, b.Y}, {b.Y, b.X}} {
-					if _, f, base, okF := loadedField(pr[0]); okF && f == "rawData" && isNilConst(pr[1]) && len(fn.Params) > 0 && rootOfAddr(base) == ssa.Value(fn.Params[0]) {
+					if _, f, base, okF := loadedField(pr[0]); okF && f == "rawData" && isNilConst(pr[1]) && len(fn.Params) > 0 && sameParam(rootOfAddr(base), fn.Params[0]) {
 						if (b.Op == token.NEQ && g.True) || (b.Op == token.EQL && !g.True) {
 							ok = true
 						}
